@@ -26,8 +26,22 @@ FAMILIES = ["default", "bounded", "bounded", "scaled", "convex", "convex_boundar
             "convex_face", "convex_face"]
 
 
+PINNED = [
+    # finding convex-startup-random-repair: box + (inactive) ball, x0 with two coordinates exactly on their upper bounds
+    dict(pinned="convex-startup-random-repair",
+         cfg={"prob": {"kind": "linear", "n": 4, "m": 4, "pseed": 149195643, "cond": 806.8879005487041, "scale": 5.912313452503683},
+              "x0": [0.15684501651885885, -0.08747584212164883, -0.00015187139068828515, 0.22431888162331248], "lower": None, "upper": None,
+              "user_params": {}, "args": {"maxfun": 12, "rhoend": 3e-05, "rhobeg": 0.3},
+              "proj": [{"type": "ball", "c": [-1.3263586323075185, -0.2830834476722819, -1.2784882587554498, -0.8979650548049438], "r": 9.805465966162574},
+                       {"type": "box", "l": [-2.4264142754895652, -1.663449379056393, -2.5568246461202113, -2.0202489912332],
+                        "u": [-0.22630298912547187, 1.0972824837118291, -0.00015187139068828515, 0.22431888162331248]}],
+              "_family": "convex_face"}),
+]
+
+
 def cases(tier, seed):
-    out = [dict(i=i, seed=seed, type="triple") for i in range(N[tier])]
+    out = [dict(i=N[tier] + NCTRL[tier] + k, seed=seed, type="triple", **p) for k, p in enumerate(PINNED)]
+    out += [dict(i=i, seed=seed, type="triple") for i in range(N[tier])]
     out += [dict(i=N[tier] + j, seed=seed, type="control") for j in range(NCTRL[tier])]
     return out
 
@@ -35,6 +49,61 @@ def cases(tier, seed):
 def setup():
     engine.install_core_monitors()
     engine.install_log_tap()
+    install_random_repair_probe()
+
+
+def install_random_repair_probe():
+    """Observe whether the start-up for convex constraints (Controller.initialise_coordinate_directions, projections branch) went
+    beyond its deterministic stages: it draws ONE np.random.randint(0, 2, n) unconditionally; any further consumption of the
+    global generator means the 'random combination of negatives' / 'random directions' repair stages ran (finding
+    convex-startup-random-repair). Compared by replaying the single unconditional draw on a copy of the saved state."""
+    from dfols.controller import Controller
+    if "c19probe" in engine._INSTALLED:
+        return
+    engine._INSTALLED.add("c19probe")
+
+    def mk(orig):
+        def initialise_coordinate_directions(self, *a, **kw):
+            c = engine.CTX
+            if c is None or not self.model.projections:
+                return orig(self, *a, **kw)
+            before = np.random.get_state()
+            c.extra["_qr_first"] = None
+            try:
+                return orig(self, *a, **kw)
+            finally:
+                first = c.extra.get("_qr_first")
+                if first is not None:
+                    # rounding residue counted as rank: a diagonal entry above matrix_rank.r_tol (1e-18) but far below any real direction
+                    rank, diag, tol = first
+                    lim = 1e-10 * min(1.0, float(self.delta))
+                    if any(tol <= abs(float(v)) < lim for v in diag):
+                        c.extra["convex_startup_rounding_residue"] = c.extra.get("convex_startup_rounding_residue", 0) + 1
+                after = np.random.get_state()
+                sim = np.random.RandomState()
+                sim.set_state(before)
+                sim.randint(0, 1 + 1, self.n())
+                s2 = sim.get_state()
+                same = (after[2] == s2[2]) and np.array_equal(after[1], s2[1])
+                c.extra["convex_startup_calls"] = c.extra.get("convex_startup_calls", 0) + 1
+                if not same:
+                    c.extra["convex_startup_random_repair"] = c.extra.get("convex_startup_random_repair", 0) + 1
+        return initialise_coordinate_directions
+    engine.BINDINGS["Controller.initialise_coordinate_directions"] = engine.instrument_method(Controller, "initialise_coordinate_directions", mk)
+    import dfols.controller as dc
+    orig_qr = dc.qr_rank
+
+    def qr_rank(*a, **kw):
+        out = orig_qr(*a, **kw)
+        c = engine.CTX
+        if c is not None and "_qr_first" in c.extra and c.extra["_qr_first"] is None:
+            try:
+                c.extra["_qr_first"] = (out[0], np.array(out[1], dtype=float).copy(), float(kw.get("tol", a[1] if len(a) > 1 else 1e-18)))
+            except Exception:
+                pass
+        return out
+    engine._PATCHES.append((dc, "qr_rank", orig_qr))
+    dc.qr_rank = qr_rank
 
 
 def make_cfg(seed, i, control=False):
@@ -259,9 +328,19 @@ def run_case(case):
         if differs:
             st["control_seen_to_differ"] = 1
         return res
+    nrep = sum(int(r_.ctx.extra.get("convex_startup_random_repair", 0)) for r_ in runs)
+    if cfg.get("proj"):
+        st["convex_startups_observed"] = sum(int(r_.ctx.extra.get("convex_startup_calls", 0)) for r_ in runs)
+        if nrep:
+            st["triples_with_random_repair_stage"] = 1
     if differs:
-        viol.append(V("not-reproducible", "[%s] %s (global RNG states: seed(0) / seed(12345) / advanced)" % (cfg["_family"], differs),
-                      family=cfg["_family"]))
+        nres = sum(int(r_.ctx.extra.get("convex_startup_rounding_residue", 0)) for r_ in runs)
+        # the finding is the random stage entered BECAUSE rounding residue was counted as rank; the same stage entered on exact
+        # zeros (which the deterministic repair handles on the unchanged tree) is something else and is reported
+        known = "convex-startup-random-repair" if (cfg.get("proj") and nrep > 0 and nres > 0) else None
+        viol.append(V("not-reproducible", "[%s] %s (global RNG states: seed(0) / seed(12345) / advanced)%s" % (
+            cfg["_family"], differs, "; the convex start-up ran its random repair stage in %d of the runs" % nrep if nrep else ""),
+            known=known, family=cfg["_family"]))
     if len(runs[0].ctx.calls) >= cfg["prob"]["n"] + 2:
         res["nontrivial"].append(oracles.cfg_hash(cfg))
     if runs[0].exc is not None:
